@@ -87,13 +87,19 @@ Definition type_sum (t1 t2 : sty) : sty :=
        | _, _ => STAny     (* unreachable: x.Is(Any) = Is for every x *)
        end.
 
-(* TypeIntersection returns a *Type; nil (no common alternative) is None — callers dereference it. *)
+(* TypeIntersection returns a *Type; nil (no common alternative) is None — callers dereference it.
+   The code keeps `outputType = &t` where t is the range variable (go.mod says go 1.18: one variable per loop),
+   so after the first match the pointee is overwritten by every later alternative of that loop: the result is
+   the common alternatives PLUS the last alternative of the list in which the first match happened (unions are
+   sorted by TypeID, so "last" is the largest TypeID).  Modelled as it is: a superset of the intersection when
+   t1 is a union; for Any on one side only the last alternative of the other side survives. *)
+Definition kmax (l : list Z) : Z := fold_left Z.max l 0.
 Definition type_inter (t1 t2 : sty) : option sty :=
   match t1, t2 with
   | STAny, STAny => Some STAny
-  | STAny, STSet b => match b with [] => None | _ => Some (STSet b) end
-  | STSet a, STAny => match a with [] => None | _ => Some (STSet a) end
-  | STSet a, STSet b => match kinter a b with [] => None | c => Some (STSet c) end
+  | STAny, STSet b => match b with [] => None | _ => Some (STSet [kmax b]) end
+  | STSet a, STAny => match a with [] => None | _ => Some (STSet [kmax a]) end
+  | STSet a, STSet b => match kinter a b with [] => None | c => Some (STSet (kunion c [kmax a])) end
   end.
 
 (* Value.Type() for scalar values (a composite value's type has element types: outside the fragment) *)
